@@ -6,6 +6,7 @@ CONSTANTS MaxConn = 3
           HdrWords = {0, 1, 2}
           WithReject = FALSE
           MinOps = 5
+          Tmos = {0, 30}
           Fails = {0}
 INVARIANTS Integrity ParkedAreQueued NoMissedMatch NoOrphan OnePipe DialerState RemAfterPost
 ACTION_CONSTRAINT ExportEdge
